@@ -63,6 +63,11 @@ func runC01(tier string, seed uint64, rep *Report) {
 	expect(rep, "a map literal that is not the last form of a body evaluates its values", L(Call("fn", V(), types.HashMap{Val: map[string]types.MalType{Kw("k"): Call("trace!", 1)}}, 2)), val(2, 1), "tmpl")
 	expect(rep, "def inside a call without parameters binds in that call's scope only", Call("do", Call("def", S("x"), 1), L(Call("fn", V(), Call("def", S("x"), 2))), S("x")), val(1), "tmpl")
 	expect(rep, "def inside a call binds in that call's scope only", Call("let", V(S("x"), 1), L(Call("fn", V(S("p")), Call("def", S("x"), 2)), 0), S("x")), val(1), "tmpl")
+	expect(rep, "closures made in successive iterations of a self tail call keep the n of their iteration",
+		Call("do", Call("def", S("it"), Call("fn", V(S("n"), S("acc")), Call("if", Call("=", S("n"), 0), Call("map", Call("fn", V(S("g")), L(S("g"))), S("acc")),
+			Call("it", Call("-", S("n"), 1), Call("cons", Call("fn", V(), S("n")), S("acc")))))), Call("it", 3, Call("list"))), val(L(1, 2, 3)), "tmpl")
+	expect(rep, "a binding added to a scope after a nested scope was opened in it is seen from the nested scope",
+		Call("do", Call("def", S("k"), Kw("outer")), L(Call("fn", V(), Call("def", S("g"), Call("let", V(S("z"), 1), Call("fn", V(), S("k")))), Call("def", S("k"), Kw("inner")), Call("g")))), val(Kw("inner")), "tmpl")
 	for _, c := range []types.MalType{0, "", L(S("list")), V(), Kw("k"), true} {
 		expect(rep, "only nil and false are falsy", Call("if", c, 1, 2), val(1), "tmpl")
 	}
@@ -125,7 +130,10 @@ func runC01(tier string, seed uint64, rep *Report) {
 	g := NewPG(NewRng(seed))
 	for i := 0; i < n; i++ {
 		p := g.Program(2 + g.R.Intn(depth-1))
-		addProgram(rep, p, true, "random")
+		idx, line, _ := addProgram(rep, p, true, "random")
+		if i%2 == 0 {
+			textRoutes(rep, idx, p, line, "same program, built as a form")
+		}
 	}
 	mergeHist(rep, g.Hist)
 }
